@@ -44,11 +44,14 @@ type valueSpec struct {
 	addr bool
 	// openChan: receiving until close would block.
 	openChan bool
+	// huge: not usable as a size or repeat count (2^53+1: not representable as float64).
+	huge bool
 }
 
 var values = []*valueSpec{
 	{ID: "int", Desc: "int64(3)", mk: func() interface{} { return int64(3) }},
 	{ID: "bigint", Desc: "int64(5000)", mk: func() interface{} { return int64(5000) }},
+	{ID: "huge", Desc: "int64(9007199254740993)", huge: true, mk: func() interface{} { return int64(9007199254740993) }},
 	{ID: "float", Desc: "float64(2.5)", mk: func() interface{} { return float64(2.5) }},
 	{ID: "string", Desc: `"ab"`, mk: func() interface{} { return "ab" }},
 	{ID: "bool", Desc: "true", mk: func() interface{} { return true }},
